@@ -83,28 +83,46 @@ pub fn number_list(input: &str) -> Result<Vec<f32>> {
 
 /// Parse a string such as "32.5mm" into a value (32.5) and unit ("mm")
 pub fn split_unit(s: &str) -> Result<(f32, String)> {
-    let mut value = String::new();
-    let mut unit = String::new();
-    let mut got_value = false;
-    for ch in s.trim().chars() {
-        if ch.is_ascii_digit() || ch == '.' || ch == '-' {
-            if got_value {
-                return Err(SvgdxError::ParseError(format!(
-                    "Invalid character in numeric value: '{ch}'"
-                )));
+    // The value is an SVG number: optional sign, digits with an optional fraction,
+    // optional exponent. ('e' only belongs to the number when digits follow, so
+    // that the unit `em` survives.)
+    let s = s.trim();
+    let bytes = s.as_bytes();
+    let mut i = 0;
+    if i < bytes.len() && (bytes[i] == b'-' || bytes[i] == b'+') {
+        i += 1;
+    }
+    let digits_start = i;
+    while i < bytes.len() && (bytes[i].is_ascii_digit() || bytes[i] == b'.') {
+        i += 1;
+    }
+    if i == digits_start {
+        return Err(SvgdxError::ParseError(format!(
+            "'{s}' does not start with numeric value"
+        )));
+    }
+    if i < bytes.len() && (bytes[i] == b'e' || bytes[i] == b'E') {
+        let mut j = i + 1;
+        if j < bytes.len() && (bytes[j] == b'-' || bytes[j] == b'+') {
+            j += 1;
+        }
+        if j < bytes.len() && bytes[j].is_ascii_digit() {
+            while j < bytes.len() && bytes[j].is_ascii_digit() {
+                j += 1;
             }
-            value.push(ch);
-        } else {
-            if value.is_empty() {
-                return Err(SvgdxError::ParseError(format!(
-                    "'{s}' does not start with numeric value"
-                )));
-            }
-            got_value = true;
-            unit.push(ch);
+            i = j;
         }
     }
-    Ok((strp(&value)?, unit))
+    let (value, unit) = s.split_at(i);
+    if let Some(ch) = unit
+        .chars()
+        .find(|c| c.is_ascii_digit() || *c == '.' || *c == '-')
+    {
+        return Err(SvgdxError::ParseError(format!(
+            "Invalid character in numeric value: '{ch}'"
+        )));
+    }
+    Ok((strp(value.trim_start_matches('+'))?, unit.to_string()))
 }
 
 /// Returns iterator over whitespace-or-comma separated values
